@@ -6,6 +6,8 @@
   Header values are NUL-free byte strings.
 -/
 import LtVerif.Model.Date
+set_option linter.unusedSimpArgs false
+set_option linter.unusedVariables false
 namespace LtVerif
 namespace Cond
 open B Date
